@@ -33,3 +33,78 @@ LEVEL = {
 }
 
 NOT_APPLICABLE = {}
+
+
+# ---------------------------------------------------------------- Kani / native harnesses
+import re as _re
+
+_MODE_UNIT = {'cbc': 'cbc', 'pcbc': 'pcbc', 'ige': 'ige', 'cfb': 'cfb', 'cfb8': 'cfb8', 'ofb': 'ofb', 'cfbbuf': 'cfb',
+              'ctr': 'ctr', 'belt': 'belt', 'cts': 'cts'}
+_MODE_PROPS = {
+    'cbc': ['C02', 'C01', 'C07', 'C12', 'C09'], 'pcbc': ['C02', 'C01', 'C07', 'C12', 'C09'], 'ige': ['C02', 'C01', 'C07', 'C12', 'C09'],
+    'cfb': ['C03', 'C01', 'C07', 'C12', 'C14'], 'cfb8': ['C03', 'C01', 'C07', 'C12', 'C08', 'C09'], 'ofb': ['C03', 'C01', 'C07', 'C12', 'C14', 'C09'],
+    'cfbbuf': ['C03', 'C08', 'C13', 'C14', 'C09', 'C01'],
+}
+
+
+def _scan_harnesses():
+    from vf import kani as KN
+    out = {}
+    for mod, n in KN.harness_names():
+        m = _re.match(r'([a-z0-9]+?)_(enc|dec|ks|buf\w*|[a-z0-9]+)_b(\d+)w(\d+)_n(\d+)(?:_(ip|b2b))?', n)
+        info = {'units': [], 'props': [], 'bounds': n, 'kani': True}
+        if m:
+            mode = m.group(1)
+            info['units'] = [_MODE_UNIT.get(mode, mode)]
+            info['props'] = list(_MODE_PROPS.get(mode, []))
+            info['bounds'] = '%s %s: block size %s bytes, cipher parallel width %s, %s blocks (1 block then the rest), %s; all IVs, data and cipher outputs symbolic' % (
+                mode, m.group(2), m.group(3), m.group(4), m.group(5), {'ip': 'in place', 'b2b': 'buffer to buffer', None: ''}[m.group(6)])
+        out[n] = info
+    out.update(HARNESS_OVERRIDES)
+    return out
+
+
+HARNESS_OVERRIDES = {}
+
+
+class _Lazy(dict):
+    _loaded = False
+
+    def _load(self):
+        if not self._loaded:
+            self._loaded = True
+            self.update(_scan_harnesses())
+
+    def items(self):
+        self._load()
+        return dict.items(self)
+
+    def get(self, k, d=None):
+        self._load()
+        return dict.get(self, k, d)
+
+    def __getitem__(self, k):
+        self._load()
+        return dict.__getitem__(self, k)
+
+
+HARNESSES = _Lazy()
+
+
+def harness_info(h):
+    return HARNESSES.get(h, {'units': [], 'props': [], 'bounds': h})
+
+
+def harness_applies(h, prop):
+    i = harness_info(h)
+    return prop in i['props']
+
+
+# per property: Kani harnesses of the quick tier (smallest instance of every external_body repo function
+# the property depends on) and of the thorough tier
+PROP_HARNESS = {
+    'C02': {'quick': ['cbc_dec_b2w2_n3_b2b', 'pcbc_enc_b2w2_n3_ip'],
+            'thorough': ['cbc_enc_b2w2_n3_ip', 'cbc_dec_b2w2_n3_ip', 'cbc_dec_b2w2_n3_b2b', 'pcbc_enc_b2w2_n3_ip', 'pcbc_dec_b2w2_n3_b2b']},
+    'C03': {'quick': ['cfb_dec_b2w2_n3_b2b', 'ofb_enc_b2w2_n3_b2b'],
+            'thorough': ['cfb_enc_b2w2_n3_b2b', 'cfb_dec_b2w2_n3_ip', 'cfb_dec_b2w2_n3_b2b', 'ofb_enc_b2w2_n3_b2b', 'ofb_dec_b2w2_n3_ip']},
+}
